@@ -9,36 +9,43 @@ and the device's set-up requests are started once."
 Objects are named by canonical numbers: the first object ever seen in a run is 0, the next
 distinct one 1, … (harness: by `id()`; model: creation order).  Snapshots are cumulative
 (everything dispatched / handled / returned so far), so "at every time" is "in every
-snapshot".
+snapshot".  `fa` / `ga` are the addresses of the frames fed / of the get() calls made, in
+order (frame f has address `fa[f]`, get() call g asks for `ga[g]`).
 -/
 namespace PlumVerif.C10
 open PlumVerif.Entry
 
-/-- one instant -/
-def snapOk (o : Snap) : Bool :=
-  decide (o.created ≤ 1)                                   -- at most one device object
-  && decide (o.setups ≤ 1) && decide (o.setups ≤ o.created) -- set-up started (at most) once, only for a created device
-  && decide (o.dispatched.length ≤ 1)                      -- announced at most once
-  && o.dispatched.all (· == 0)                             -- … and it is THE object
-  && (o.published == none || o.published == some 0)
-  && o.gets.all (fun g => g == none || g == some 0)         -- every get() caller received that object
-  && o.handled.all (fun p => p.2 == 0)                      -- every frame was handled by that object
-  && (o.handled.map (·.1)).Nodup                            -- … once
-  -- whoever holds an object holds a published one whose set-up has been started
-  && ((o.handled.isEmpty && o.gets.all (· == none))
-      || (o.published == some 0 && o.created == 1 && o.setups == 1))
+/-- one instant (of a quiescent loop) -/
+def snapOk (fa ga : List Nat) (o : Snap) : Bool :=
+  (o.dispatched.map (·.1)).Nodup                                 -- each address is announced at most once …
+  && (o.dispatched.map (·.2)).Nodup                              -- … and no object serves two addresses
+  && o.published == o.dispatched                                 -- what was announced is, and stays, the entry
+  && o.created == o.dispatched.length                            -- one device object per announced address, no others
+  && o.setups == o.created                                       -- set-up started once per device object
+  -- every get() caller that returned received the entry of the address it asked for
+  && (List.range o.gets.length).all (fun g =>
+        match o.gets.getD g none with
+        | none => true
+        | some d => o.published.contains (ga.getD g 0, d))
+  -- every frame handled so far was handled by the entry of its address, once
+  && o.handled.all (fun p => o.published.contains (fa.getD p.1 0, p.2))
+  && (o.handled.map (·.1)).Nodup
 
-/-- the end of a complete run (all imports released, loop quiescent): every one of the
-`frames` frames fed has been handled, every get() has returned -/
-def finalOk (frames : Nat) (o : Snap) : Bool :=
-  snapOk o
-  && (List.range frames).all (fun f => (o.handled.map (·.1)).count f == 1)
-  && decide (o.handled.length = frames)
-  && (frames == 0 || o.gets.all (· == some 0))
+/-- the end of a complete run (all imports released, loop quiescent): every frame from an
+address that has a device class has been handled (by that address's object, `snapOk`), frames
+from an address without one are dropped, every get() for an address that got an entry has
+returned -/
+def finalOk (fa ga : List Nat) (cr : Nat → Bool) (o : Snap) : Bool :=
+  snapOk fa ga o
   && o.held == 0
+  && (List.range fa.length).all (fun f =>
+        (o.handled.map (·.1)).contains f == cr (fa.getD f 0))
+  && o.gets.length == ga.length
+  && (List.range ga.length).all (fun g =>
+        (o.gets.getD g none).isSome == (o.published.map (·.1)).contains (ga.getD g 0))
 
 /-- a whole observed run -/
-def spec (frames : Nat) (snaps : List Snap) : Bool :=
-  snaps.all snapOk && (match snaps.getLast? with | some o => finalOk frames o | none => true)
+def spec (fa ga : List Nat) (cr : Nat → Bool) (snaps : List Snap) : Bool :=
+  snaps.all (snapOk fa ga) && (match snaps.getLast? with | some o => finalOk fa ga cr o | none => true)
 
 end PlumVerif.C10
